@@ -19,6 +19,7 @@ DataOf(name) ==
     [] name = "d2" -> <<D(1, "G2", "wh", "details-data")>>
     [] name = "d3" -> <<D(1, "P1", "hkeep", "details-file"), D(2, "P1", "nosize", "data")>>
     [] name = "d4" -> <<D(2, "J3", "wonly", "data"), D(1, "G1", "whfrac", "file")>>
+    [] name = "d5" -> <<D(1, "P1", "nil", "data"), D(2, "P1b", "nil", "data")>>       \* twin images in one data set
     [] OTHER -> <<>>
 TplOf(name) ==
   CASE name = "two" -> <<1, 2>>
@@ -91,6 +92,10 @@ PlanOf(name) ==
     [] name = "tcells" ->       \* several placeholders in one cell
          [Small EXCEPT !.ops = {"AddTable", "AddCellPlaceholder", "Render"}, !.Cells = {<<0, 1>>}, !.Slots = {1, 2},
                        !.Lays = {"alone", "around"}, !.dq = 4, !.dt = 5]
+    [] name = "twins" ->        \* two different images that agree in format, pixel size and encoded length, on every path
+         [Small EXCEPT !.ops = {"AddImage", "AddTable", "AddCellImage", "AddPlaceholder", "Render", "Reopen"},
+                       !.Toks = IF Q THEN {"P1", "P1b"} ELSE {"P1", "P1b", "J2", "J2b", "G1", "G1b"}, !.SizeNs = {"nil"},
+                       !.Cells = {<<0, 1>>}, !.Slots = {1, 2}, !.DataNs = {"d5"}, !.dq = 3, !.dt = 3]
     [] name = "setters" ->      \* the setters on ImageInfo handles and failing cell calls change nothing
          [Small EXCEPT !.ops = {"AddImage", "AddTable", "AddCellImage", "BadCell", "Info", "Save", "Reopen"}, !.Toks = {"P1"},
                        !.SizeNs = {"wh"}, !.Cells = {<<0, 0>>}, !.InfoNs = IF Q THEN {"ResizeImage", "SetImageAlignment", "SetImagePosition"} ELSE InfoOps,
